@@ -154,16 +154,18 @@ _TWIN: dict = {}
 
 
 def twin_sweep(long_b: envs.Bundle, short_b: envs.Bundle, T: int, base_words, salt: int, n_eps: int,
-               policy: str = "legal_hash"):
+               policy: str = "legal_hash", explained=None):
     """C11: env(time_limit=T) and env(T+5) are reset with the same key and stepped with the same actions (chosen by the
     scripted policy from the long twin's observation) for T+5 steps, n_eps episodes in one vmapped scan.  Flags, per
     episode, the first step at which (both still running) the step types differ before step T, the short twin does not
-    return LAST on step T, or the long twin does not on step T+5.  Returns host arrays (first flagged step or -1,
+    return LAST on step T, or the long twin does not on step T+5; with `explained` (a jnp predicate of the state: "the
+    game is over for a documented reason") also a LAST of the short twin before step T that it does not explain.
+    Returns host arrays (first flagged step or -1,
     number of episodes in which both twins were still running on step T, key words, actions)."""
     import jax
     import jax.numpy as jnp
 
-    k = (id(long_b), id(short_b), T, policy)
+    k = (id(long_b), id(short_b), T, policy, id(explained))
     if k not in _TWIN:
         le, se = long_b.env, short_b.env
         pol = envs.deep_policy(long_b, policy)
@@ -188,6 +190,8 @@ def twin_sweep(long_b: envs.Bundle, short_b: envs.Bundle, T: int, base_words, sa
                 bad = both & (step < T) & (tl2.step_type != ts2.step_type)
                 bad = bad | (both & (step == T) & ~ts2.last())
                 bad = bad | (~dl & (step == T + 5) & ~tl2.last())
+                if explained is not None:
+                    bad = bad | (~ds & (step < T) & ts2.last() & ~explained(ss2))
                 first = jnp.where((first < 0) & bad, step, first)
                 reached = reached | (both & (step == T))
                 sl3, tl3 = jax.tree_util.tree_map(lambda x, y: jnp.where(dl, x, y), (sl1, tl1), (sl2, tl2))
